@@ -262,3 +262,93 @@ TASKS.append(FunctionTask(ENTRY, registry={"HvsrTraditional.update_peaks_bounded
                                       "_frequency_domain_window_rejection": FuncV(_m_driver, "_frequency_domain_window_rejection")},
                           label="hvsrpy.window_rejection.frequency_domain_window_rejection[azimuthal]",
                           clauses=["azimuthal: the algorithm runs on every azimuth after the range update; the maximum iteration count is returned"]))
+
+
+# ---------------------------------------------------------------------------------------------------------------------
+# the same entry point on a traditional object: one peak search in the requested range, one run of the iteration, its count returned
+HT = z3.Int("traditional_id")
+
+
+def _entry_trad_inputs(ex, st):
+    st.env["hvsr"] = SObj("HvsrTraditional", HT, owner="param:hvsr")
+    st.env["n"], st.env["max_iterations"], st.env["distribution_fn"], st.env["distribution_mc"] = nn, maxit, dfn, dmc
+    st.env["search_range_in_hz"], st.env["find_peaks_kwargs"] = Tup((SLO, SHI)), KWC
+    st.env["__HC"] = HC0
+    return [maxit >= 1]
+
+
+def _m_meta_of(ex, st, args, kw, node):
+    return DictV({}, owner="param:hvsr.meta")
+
+
+ENTRY_T = Contract(
+    qual="hvsrpy.window_rejection.frequency_domain_window_rejection",
+    params=["hvsr", "n", "max_iterations", "distribution_fn", "distribution_mc", "search_range_in_hz", "find_peaks_kwargs"],
+    ghost=dict(GH_EN, HT=HT), axioms=AX_EN[:1], make_inputs=_entry_trad_inputs,
+    ensures=["HC(HT) == DONE(HT)", "result == IT(HT)", "forall(h, None, None, implies(h != HT, HC(h) == HC0(h)))"],
+    modifies=["param:hvsr", "param:hvsr.meta"],
+    notes="traditional object: the peak search in the requested range, then the iteration with the caller's arguments on that object only; its count is returned")
+ENTRY_T.ghost_state = ("__HC",)
+from pyvc import objects as _objs
+if "meta" not in _objs.SCHEMA["HvsrTraditional"]:
+    _objs.SCHEMA["HvsrTraditional"]["meta"] = ("derived", lambda ex, st, o: DictV({}, owner=f"{o.owner}.meta"))
+TASKS.append(FunctionTask(ENTRY_T, registry={"HvsrTraditional.update_peaks_bounded": FuncV(_m_upb, "update_peaks_bounded")},
+                          module_env={"HvsrTraditional": ClsV("HvsrTraditional"), "HvsrAzimuthal": ClsV("HvsrAzimuthal"),
+                                      "_frequency_domain_window_rejection": FuncV(_m_driver, "_frequency_domain_window_rejection")},
+                          label="hvsrpy.window_rejection.frequency_domain_window_rejection[traditional]",
+                          clauses=["traditional: the algorithm runs once on the object after the range update; its iteration count is returned"]))
+
+
+# ---------------------------------------------------------------------------------------------------------------------
+# HvsrAzimuthal.update_peaks_bounded (the model _m_upb_parent above, now proved): the range and filters are recorded on the azimuthal object and every
+# per-azimuth object - and no other object - is searched with exactly the caller's range and filters
+KWD = z3.Function("find_peaks_kwargs_code_of", R, I)
+PROM = z3.Real("prominence")
+
+
+def _upa_inputs(kw):
+    def mk(ex, st):
+        hv = new_symlist(ex, st, "HvsrTraditional", length=NAZ, arr=HIDS, owner="param:self.hvsrs", name="hvsrs")
+        st.env["self"] = sym_obj(ex, st, "HvsrAzimuthal", {"hvsrs": hv, "meta": DictV({}, owner="param:self.meta")}, owner="param:self")
+        st.env["search_range_in_hz"] = Tup((SLO, SHI))
+        st.env["find_peaks_kwargs"] = NONE if kw == "None" else DictV({"prominence": PROM})
+        st.env["__HC"] = HC0
+        st.env["NAZ"] = NAZ
+        a, b = z3.Ints("a!in b!in")
+        return [NAZ >= 0, KWC == (z3.IntVal(0) if kw == "None" else KWD(PROM)),
+                z3.ForAll([a, b], z3.Implies(z3.And(0 <= a, a < b, b < NAZ), z3.Select(HIDS, a) != z3.Select(HIDS, b)))]
+    return mk
+
+
+def _m_upb_coded(ex, st, args, kw, node):
+    """HvsrTraditional.update_peaks_bounded on a per-azimuth object: its content becomes UPB(content, range, filters) (contract: C08)"""
+    h = args[0]
+    lo, hi = kw["search_range_in_hz"]
+    f = kw["find_peaks_kwargs"]
+    from pyvc.core import NoneV
+    code = z3.IntVal(0) if isinstance(f, NoneV) else (KWD(lit_(f.items["prominence"])) if isinstance(f, DictV) and set(f.items) == {"prominence"} else None)
+    if code is None:
+        raise Undecided("filters other than None / {'prominence': p}")
+    st.env["__HC"] = z3.Store(st.env["__HC"], h.id, UPB(z3.Select(st.env["__HC"], h.id), lit_(lo), lit_(hi), code))
+    return NONE
+
+
+from pyvc.core import Undecided
+_IN = "exists(a, 0, NAZ, HID(a) == h)"
+for _kw in ("None", "dict"):
+    _c = Contract(
+        qual="hvsrpy.hvsr_azimuthal.HvsrAzimuthal.update_peaks_bounded", params=["self", "search_range_in_hz", "find_peaks_kwargs"],
+        ghost=dict(GH_EN, is_none=FuncV(lambda ex, st, a, k, n_: z3.BoolVal(a[0] is NONE), "is_none")), make_inputs=_upa_inputs(_kw),
+        ensures=["forall(a, 0, NAZ, HC(HID(a)) == SEARCHED(HID(a)))", f"forall(h, None, None, implies(not {_IN}, HC(h) == HC0(h)))",
+                 "self.meta['search_range_in_hz'] == search_range_in_hz",
+                 "is_none(self.meta['find_peaks_kwargs'])" if _kw == "None" else
+                 "self.meta['find_peaks_kwargs']['prominence'] == find_peaks_kwargs['prominence'] and not (self.meta['find_peaks_kwargs'] is find_peaks_kwargs)"],
+        loops={0: ["forall(a, 0, _k0, HC(HID(a)) == SEARCHED(HID(a)))", "forall(a, _k0, NAZ, HC(HID(a)) == HC0(HID(a)))",
+                   f"forall(h, None, None, implies(not {_IN}, HC(h) == HC0(h)))"]},
+        modifies=["param:self", "param:self.meta"],
+        notes="the azimuthal fan-out of the peak search: every azimuth is searched with the caller's range and filters, the range is recorded on the parent "
+              "(a copy of the filters dictionary, not the caller's object)")
+    _c.ghost_state = ("__HC",)
+    TASKS.append(FunctionTask(_c, registry={"HvsrTraditional.update_peaks_bounded": FuncV(_m_upb_coded, "update_peaks_bounded")},
+                              label=f"hvsrpy.hvsr_azimuthal.HvsrAzimuthal.update_peaks_bounded[kwargs={_kw}]",
+                              clauses=["changing the range re-evaluates every azimuth's peaks with the caller's range and filters"]))
